@@ -129,7 +129,14 @@ def scale_by_hs(repo, rep):
                     good = isinstance(tt, ast.BoolOp) and isinstance(tt.op, ast.Or) and len(tt.values) == 2 and \
                         all(isinstance(v, ast.Compare) and isinstance(v.ops[0], ast.NotEq) for v in tt.values)
                     cmps = [c for c in ast.walk(n) if isinstance(c, ast.Compare) and c is not tt and c not in list(ast.walk(tt))]
-                    got = sorted((type(c.ops[0]).__name__, unparse(c.comparators[0])) for c in cmps if len(c.ops) == 1)
+                    from ..astutil import rel as _rel
+                    opname = {">=": "GtE", "<=": "LtE", ">": "Gt", "<": "Lt", "==": "Eq", "!=": "NotEq"}
+                    got = []
+                    for c in cmps:
+                        r_ = _rel(c, lambda e: isinstance(e, ast.Name) and e.id in (f"{var}_min", f"{var}_max"))
+                        if r_ is not None:      # relation of the quantity with respect to the bound
+                            got.append((opname[{"<": ">", "<=": ">=", ">": "<", ">=": "<=", "==": "==", "!=": "!="}[r_[1]]], unparse(r_[0])))
+                    got = sorted(got)
                     closed = got == sorted([("GtE", f"{var}_min"), ("LtE", f"{var}_max")])
                     if good and closed:
                         rep.ok("R-C10-4", f"{fi.file}:{n.lineno} scale_by_hs", unparse(tt), f"the {var} range joins the condition when EITHER bound is given; closed range test")
